@@ -34,8 +34,10 @@ type Case struct {
 	// of their own); each operation of Fan is tried, on its own, after that
 	// prefix and every handle is observed after it, i.e. the case stands for the
 	// len(Fan) histories Ops+[Fan[i]].
-	Mode string `json:"mode"`
-	Fan  []Op   `json:"fan,omitempty"`
+	// Mode "big": a scripted history on large Bimaps generated from Big (see big.go), Go oracle only.
+	Mode string   `json:"mode"`
+	Fan  []Op     `json:"fan,omitempty"`
+	Big  *BigSpec `json:"big,omitempty"`
 }
 
 func init() {
@@ -46,6 +48,10 @@ func replay(c *core.Ctx, raw json.RawMessage) error {
 	var cs Case
 	if err := json.Unmarshal(raw, &cs); err != nil {
 		return err
+	}
+	if cs.Big != nil {
+		execBig(c, *cs.Big)
+		return nil
 	}
 	exec(c, cs)
 	return nil
@@ -298,7 +304,13 @@ func run(c *core.Ctx) {
 	u4 := []int{0, 1, 2, 3}
 	odd := []int{-3, 0, 5, 1 << 40, -1 << 63, 1<<63 - 1}
 	nRandom, nOdd := c.N(500, 8000, 8000), c.N(100, 1500, 1500)
+	// 5. a model sample of the large-Bimap scripts (prefixes of small instances; the large ones are oracle-only, below)
+	samples := bigSamples(c)
+	nExtra := nRandom + nOdd + len(samples)
 	random := func(i int) Case {
+		if i >= nRandom+nOdd {
+			return samples[i-nRandom-nOdd]
+		}
 		if i >= nRandom {
 			return Case{Univ: odd, Ops: randomOps(c.Rng, odd, 1+c.Rng.Size(40), 4), Mode: "all"}
 		}
@@ -312,19 +324,24 @@ func run(c *core.Ctx) {
 	// the (long) random cases are spread evenly among the exhaustive ones so that all shards cost about the same
 	nExh, nHist := 0, 1
 	exhaustive(func(_, fan []Op) { nExh++; nHist += len(fan) })
-	stride := nExh/(nRandom+nOdd) + 1
+	stride := nExh/nExtra + 1
 	i, r := 0, 0
 	exec(c, Case{Univ: u2, Mode: "last"}) // the empty history: a zero-value Bimap
 	exhaustive(func(prefix, fan []Op) {
 		exec(c, Case{Univ: u2, Ops: append([]Op(nil), prefix...), Mode: "fan", Fan: fan})
-		if i++; i%stride == 0 && r < nRandom+nOdd {
+		if i++; i%stride == 0 && r < nExtra {
 			exec(c, random(r))
 			r++
 		}
 	})
-	for ; r < nRandom+nOdd; r++ {
+	for ; r < nExtra; r++ {
 		exec(c, random(r))
 	}
+	// 6. large Bimaps, Go oracle only
+	nBig, maxBig := runBig(c)
+	c.Note(fmt.Sprintf("large-Bimap stream: %d scripted histories checked by the Go oracle only (Bimaps built up to n pairs for n = 0..%d dense around powers of two and Go map growth points, "+
+		"every collision pattern of Add at that size, clones of clones mutated differently, teardown to empty pair by pair, reuse, Clear/Clone/Range/Len at full size; up to 1025 handles); "+
+		"%d prefixes of small instances (n = 17, 33, 65; 33 handles) also given to the model", nBig, maxBig, len(samples)))
 	c.Exhaustive = true
 	c.Note(fmt.Sprintf("exhaustive (%d histories in %d fan cases = a prefix with all its one-operation extensions, every handle observed after the last operation): "+
 		"every history of length <= %d of Add/RemoveForward/RemoveReverse/Clear over keys {0,1} x values {0,1} on a zero-value Bimap; "+
